@@ -135,7 +135,15 @@ def run_prog(case, res, stats):
     def walk_stmts(stmts):
         for st in stmts:
             if st[0] == "assign":
-                if rtlil_target_width(st[2], sigs) > 0:
+                t = st[2]
+                while t[0] in ("as_signed", "as_unsigned"):
+                    t = t[1]
+                if t[0] == "slice" and t[1][0] == "array":
+                    # a slice of an Array proxy addresses no bit of an element that ends below the slice
+                    from dsim.refint import shape_of as _shape_of
+                    for e in t[1][1]:
+                        (assigned if (_shape_of(e, sigs)[0] > t[2] and t[3] > t[2]) else assigned_zero).update(progen._target_sigs(e))
+                elif rtlil_target_width(st[2], sigs) > 0:
                     assigned.update(progen._target_sigs(st[2]))
                 else:
                     assigned_zero.update(progen._target_sigs(st[2]))    # a zero-width target drives nothing
